@@ -49,6 +49,10 @@ func genHandle(r *Rng) []CallD {
 		switch r.Intn(5) {
 		case 0:
 			cs[i] = CallD{K: "Errors", Errs: []ErrD{sent(int64(r.Intn(2)))}}
+			if r.Chance(50) {
+				// several targets in one call: each of them counts, not only the last
+				cs[i].Errs = []ErrD{sent(int64(r.Intn(2))), {K: "Open"}, sent(2)}
+			}
 		case 1:
 			cs[i] = CallD{K: "Result", R: Pick(r, []int64{0, 1, 7})}
 		case 2:
@@ -56,6 +60,9 @@ func genHandle(r *Rng) []CallD {
 			cs[i] = CallD{K: "If", P: &p}
 		case 3:
 			cs[i] = CallD{K: "ErrorTypes", Tgts: []TgtD{{K: "Err", E: &ErrD{K: "TypedP", A: 1, B: 0}}}}
+			if r.Chance(50) {
+				cs[i].Tgts = append(cs[i].Tgts, TgtD{K: "Err", E: &ErrD{K: "Timeout"}})
+			}
 		default:
 			cs[i] = randCall(r, Pick(r, callKinds))
 		}
